@@ -137,7 +137,7 @@ def run_check(prop, tier, seed, replay):
     known_hits = {}
 
     # a. obligations
-    lean = core.lean_obligations(prop)
+    lean = core.lean_obligations(prop, recheck=(tier == "thorough"))
     scan = core.scan_sources()
     n_obl = len(lean["obligations"])
     n_dis = sum(1 for o in lean["obligations"] if o["ok"]) if lean["build_ok"] else 0
@@ -305,7 +305,7 @@ def finish(prop, tier, seed, t0, lean, n_obl, n_dis, stats, violations, known_hi
         "property_id": prop, "tier": tier, "seed": seed, "level": "proof",
         "coverage": {
             "obligations": n_obl, "discharged": n_dis,
-            "checker_cmd": lean.get("checker_cmd", ""),
+            "checker_cmd": lean.get("checker_cmd", "") + ("; lake env leanchecker (independent re-check of the compiled module): " + lean["leanchecker"] if lean.get("leanchecker") else ""),
             "trusted_base": core.TRUSTED,
             "obligation_list": [{"name": o["name"], "axioms": o["axioms"]} for o in lean["obligations"]],
             "source_scan_hits": scan,
